@@ -692,7 +692,7 @@ example : ∀ i ∈ [In.subscribe 5, .seqUpdate 9 100 false true .record, .resta
 example : CursorOk true { p := 9, q := 9, dead := false } := by intro _ _; simp [eff]
 example : CursorOk false { p := 9, q := 17, dead := false } := by intro _ _; simp [eff]
 
-/-! ### the batch loop of getTxReceipts / getEVMEvent after fix 87f57a6 (same size rule as getBlockSeqs) -/
+/-! ### the batch loop of getTxReceipts after fix 87f57a6 (same size rule as getBlockSeqs); getEVMEvent keeps the old rule (repo commit dbb0015: an existing test pins it) -/
 
 /-- **No matching block is left out of a batch**: the payload holds exactly the matching blocks among the
 `count` blocks the batch goes over (`updateSeq = startSeq + count - 1`) — whatever the sizes, in particular
